@@ -24,6 +24,10 @@ const (
 var c07Edits = []string{"a", "b", " ", "x", "-", "\x7f", "\x04", "\x0b", "\x15", "\x17", "\x1bd", "\x19", "\x14", "\x1bu", "\x1bc"}
 var c07Moves = []string{"\x01", "\x05", "\x02", "\x06", "\x1bb", "\x1bf"}
 
+// history walking: each history line has its own undo history, whose initial content is the entry
+var c07Walks = []string{"\x10", "\x10", "\x0e"} // C-p, C-p, C-n
+var c07History = []string{"first entry", "second", "third one"}
+
 func c07Name(k string) string {
 	switch k {
 	case c07Undo:
@@ -39,7 +43,9 @@ func init() {
 		gen: func(r *rand.Rand) Case {
 			var keys []string
 			for n := 2 + r.Intn(8); n > 0; n-- {
-				switch x := r.Intn(10); {
+				switch x := r.Intn(12); {
+				case x >= 10:
+					keys = append(keys, c07Walks[r.Intn(len(c07Walks))])
 				case x < 6:
 					keys = append(keys, c07Edits[r.Intn(len(c07Edits))])
 				case x < 8:
@@ -50,7 +56,7 @@ func init() {
 					keys = append(keys, c07Redo)
 				}
 			}
-			kind := []string{"undo-all", "undo-redo", "undo-edit-undo"}[r.Intn(3)]
+			kind := []string{"undo-all", "undo-redo", "undo-edit-undo", "undo-redo-undo-all"}[r.Intn(4)]
 			c := Case{Keys: hexChunks(keys), Class: kind, Meta: map[string]string{"kind": kind, "n": fmt.Sprint(1 + r.Intn(3))}}
 			props["C07"].build(&c)
 			return c
@@ -74,9 +80,18 @@ func init() {
 				}
 			case "undo-edit-undo":
 				keys = append(keys, c07Undo, "z", "\x01", c07Undo, c07Undo, c07Redo, c07Redo, c07Redo)
+			case "undo-redo-undo-all":
+				// part of the way back (n·(body/3) undos), ONE redo, then all the way back
+				for i := 0; i < 1+n*body/3; i++ {
+					keys = append(keys, c07Undo)
+				}
+				keys = append(keys, c07Redo)
+				for i := 0; i < body+3; i++ {
+					keys = append(keys, c07Undo)
+				}
 			}
 			c.Meta["body"] = fmt.Sprint(body)
-			sp := Spec{Prompt: "> ", Mode: "emacs", Runs: 1, Binds: []Bind{{Seq: `\C-x\C-zr`, Cmd: "redo"}}}
+			sp := Spec{Prompt: "> ", Mode: "emacs", Runs: 1, Binds: []Bind{{Seq: `\C-x\C-zr`, Cmd: "redo"}}, Sources: []Src{{Name: "main", Lines: c07History}}}
 			sp.Chunks = hexChunks(keys)
 			c.Specs = []Spec{sp}
 		},
@@ -109,14 +124,49 @@ func init() {
 				return strings.Join(p, " ")
 			}
 			var fs []Finding
-			seen := map[string]bool{}
+			// which line is being edited: 0 is the line being typed, k > 0 the k-th entry from the newest
+			// (previous-history / next-history move between them; C09 decides that they do)
+			nh := len(c07History)
+			lineOf := make([]int, len(keys)+1)
+			cur := 0
+			for i, k := range keys {
+				lineOf[i] = cur
+				switch k {
+				case "\x10":
+					if cur < nh {
+						cur++
+					}
+				case "\x0e":
+					if cur > 0 {
+						cur--
+					}
+				}
+			}
+			lineOf[len(keys)] = cur
+			initial := func(line int) string {
+				if line == 0 {
+					return ""
+				}
+				return c07History[nh-line]
+			}
+			seen := map[int]map[string]bool{}
+			see := func(line int, text string) {
+				if seen[line] == nil {
+					seen[line] = map[string]bool{initial(line): true}
+				}
+				seen[line][text] = true
+			}
 			for i := range keys {
-				seen[tr.Waits[i].Line] = true
+				see(lineOf[i], tr.Waits[i].Line)
 				after := tr.Waits[i+1].Line
 				if keys[i] == c07Undo || keys[i] == c07Redo {
 					stat("undo-or-redo-step")
-					if !seen[after] {
-						fs = append(fs, Finding{"C07", "shows-text-never-shown/" + c07Name(keys[i]), fmt.Sprintf("script %s: key %d gives %q, which the line never was", script(), i, after), c})
+					if !seen[lineOf[i]][after] {
+						where := "typed-line"
+						if lineOf[i] > 0 {
+							where = "history-line"
+						}
+						fs = append(fs, Finding{"C07", "shows-text-never-shown/" + c07Name(keys[i]) + "/" + where, fmt.Sprintf("script %s: key %d gives %q, which that line never was (it started as %q)", script(), i, after, initial(lineOf[i])), c})
 						break
 					}
 				}
@@ -125,7 +175,7 @@ func init() {
 			// Emacs, and are not checked here) gives back the state that command was run from
 			typed := func(k string) bool { return len(k) == 1 && k[0] >= 0x20 && k[0] < 0x7f }
 			for i := 0; i+1 < len(keys); i++ {
-				if keys[i+1] == c07Undo && keys[i] != c07Undo && keys[i] != c07Redo && !typed(keys[i]) && tr.Waits[i].Line != tr.Waits[i+1].Line {
+				if keys[i+1] == c07Undo && keys[i] != c07Undo && keys[i] != c07Redo && keys[i] != "\x10" && keys[i] != "\x0e" && !typed(keys[i]) && tr.Waits[i].Line != tr.Waits[i+1].Line {
 					stat("undo-after-command")
 					if tr.Waits[i+2].Line != tr.Waits[i].Line {
 						how := "plain"
@@ -141,10 +191,14 @@ func init() {
 			}
 			final := tr.Waits[len(keys)].Line
 			switch c.Meta["kind"] {
-			case "undo-all":
-				stat("undo-all")
-				if final != "" {
-					fs = append(fs, Finding{"C07", "undo-does-not-reach-initial", fmt.Sprintf("script %s: after %d undos the buffer is %q, the line started empty", script(), len(keys)-body, final), c})
+			case "undo-all", "undo-redo-undo-all":
+				stat(c.Meta["kind"])
+				if want := initial(lineOf[len(keys)]); final != want {
+					how := "after-undos"
+					if c.Meta["kind"] != "undo-all" {
+						how = "after-undo-redo"
+					}
+					fs = append(fs, Finding{"C07", "undo-does-not-reach-initial/" + how, fmt.Sprintf("script %s: after the final run of undos the buffer is %q, the line started as %q", script(), final, want), c})
 				}
 			case "undo-redo":
 				stat("undo-redo")
